@@ -132,6 +132,10 @@ func (a *Act) intrinsic(name string, fv FuncV, args []Value) (Value, bool) {
 			out.alts = append(out.alts, IfaceAlt{g: al.g, typ: al.typ, val: a.deepClone(al.val, al.typ, 0)})
 		}
 		return out, true
+	case "(*github.com/golang/protobuf/proto.Buffer).Unmarshal":
+		// decoding from a buffer into a message: the executor does not model the message's content; the
+		// target keeps what it had (this decoder merges, it does not reset), no error
+		return nilIface(), true
 	case "(*github.com/golang/protobuf/proto.Buffer).Marshal":
 		// encoding a message into the buffer: SOME encoding of it is appended - an arbitrary byte string
 		// of 0..4 bytes (encodings of one message are not unique: map order, unknown fields), no error
@@ -679,6 +683,17 @@ func (a *Act) intrinsic(name string, fv FuncV, args []Value) (Value, bool) {
 			eq = And(eq, Eq(a.sliceElem(x, i).(*Term), a.sliceElem(y, i).(*Term)))
 		}
 		return eq, true
+	case "verifCondBroadcasts":
+		// how often the condition variable was signalled so far (ghost counter)
+		id := a.condGhost(args[0].(PtrV))
+		return ZeroExt(a.st.heap[id].v.(*Term), 64), true
+	case "verifNeedsWaiter":
+		// the caller cannot proceed until the goroutine waiting on c makes progress: if c has not been
+		// signalled since `since`, that goroutine is still asleep and nobody is left to wake it
+		id := a.condGhost(args[0].(PtrV))
+		since := args[1].(*Term)
+		a.deadlockIf(Eq(ZeroExt(a.st.heap[id].v.(*Term), 64), since), "a send inside the underlying stream needs the receiver, which still waits to be told that the stream exists")
+		return nil, true
 	case "verifSymbolic":
 		return True, true
 	case "verifCase":
